@@ -111,13 +111,18 @@ def run(tier):
         sk = c08.skeleton2(rnd2, cyc=0.4)
         sk.update(warm=0, alt=i)
         pj.append(dict(base, harness="VerifC05PyPIShared2", params=sk))
+    # Maven, second-generation universes
+    for i in range(60 if q else 1200):
+        sk = c07.skeleton2(rnd2, 1 if i % 3 == 0 else 0)
+        sk["alt"] = i
+        mj.append(dict(base, harness="VerifC05Maven2", params=sk))
     # npm, second-generation universes
     for i in range(40 if q else 600):
         sk = c06.skeleton2(rnd2, alias_p=0.2 if i % 3 == 0 else 0.0)
         sk["alt"] = i
         nj.append(dict(base, harness="VerifC05Npm2", params=sk))
     return run_property("C05", tier, [Group("rpypi", pj, files=["c05.go", "c05shared.go", "c08r.go", "c08r2.go"]), Group("rnpm", nj, files=["c06.go", "c06v2.go", "c05shared.go"]),
-                                      Group("rmaven", mj, files=["c07r.go", "c05shared.go"])],
+                                      Group("rmaven", mj, files=["c07r.go", "c07r2.go", "c05shared.go"])],
                         required_covers=["one requirement filtered out by its marker", "some version matched", "resolved without a graph error",
                                          "resolved a graph with dependencies", "other root resolved in between",
                                          "one Resolve call checked against the shared-state discipline", "shared resolver warmed up by an earlier resolution"],
